@@ -743,3 +743,16 @@ func (s *Session) Exec(src string, watchdog time.Duration) Real {
 	}
 	return real
 }
+
+// RunNoCtx executes source text with vm.Execute, i.e. under a context that cannot be cancelled
+// (programs that terminate by construction only: there is no watchdog but the worker's).
+func RunNoCtx(src string) Real {
+	e, rec := NewEnv()
+	base := runtime.NumGoroutine()
+	rec.Base = base
+	o := ank.Exec(e, src)
+	settled := waitGoroutines(base)
+	real := finish(o, rec, context.Background())
+	real.Unsettled = !settled
+	return real
+}
